@@ -3,6 +3,7 @@ import Deb822Verif.Model.DebParse
 import Deb822Verif.Model.DebAccess
 import Deb822Verif.Model.DebLossy
 import Deb822Verif.Model.DebEdit
+import Deb822Verif.Model.DebWrap
 import Deb822Verif.Spec.DocGrammar
 import Deb822Verif.Spec.DocSDec
 namespace Deb822Verif.Driver.Deb
@@ -211,8 +212,66 @@ def histRun (d : Doc) : List String → Option (List String × Doc)
     let (rest, dEnd) ← histRun d' ops
     pure (s!"{ret}={encStr d'.root.text}|{showHandles d'}" :: rest, dEnd)
 
+/-! wrap-and-sort (C07) -/
+
+/-- `str::cmp` (byte-wise on UTF-8 = code-point-wise) ≠ Greater -/
+def strLe : Str → Str → Bool
+  | [], _ => true
+  | _ :: _, [] => false
+  | a :: as, b :: bs => if a.toNat < b.toNat then true else if a.toNat > b.toNat then false else strLe as bs
+
+def optLe : Option Str → Option Str → Bool
+  | none, _ => true
+  | some _, none => false
+  | some a, some b => strLe a b
+
+/-- the "one per line" formatter used for Uploaders: split on ',', trim, join with ",\n" -/
+def fmtCommaLines (_k v : Str) : Str :=
+  Text.join [',', '\n'] ((Text.splitOn ',' v).map Text.trim)
+
+def decCfg (f : String) : Option (WrapCfg × String × String × String) :=
+  match f.splitOn "/" with
+  | [ind, imm, mx, ecmp, pcmp, fmt] => do
+    let indentation ← if ind == "f" then some Indentation.fieldNameLength else (ind.toNat?).map Indentation.spaces
+    let maxLen ← if mx == "n" then some none else (mx.toNat?).map some
+    pure ({ indentation := indentation, immediateEmptyLine := imm == "1", maxLineLengthOneLiner := maxLen }, ecmp, pcmp, fmt)
+  | _ => none
+
+def wrapOnce (level : String) (cfg : WrapCfg) (ecmp pcmp fmt : String) (root : DNode) : Option DNode :=
+  let f : Option (Str → Str → Str) := if fmt == "i" then some (fun _ v => v) else if fmt == "u" then some fmtCommaLines else none
+  let ele : Option (DNode → DNode → Bool) :=
+    if ecmp == "k" then some (fun a b => optLe (entryKey a) (entryKey b))
+    else if ecmp == "v" then some (fun a b => strLe (entryValue a) (entryValue b)) else none
+  let ple : Option (DNode → DNode → Bool) :=
+    if pcmp == "p" then some (fun a b => optLe (Deb.get a "Package".toList) (Deb.get b "Package".toList)) else none
+  match level with
+  | "d" => deb822Wrap ple (some (paragraphWrap cfg ele f)) root
+  | "p" => match paragraphs root with
+    | p :: _ => (paragraphWrap cfg ele f p).map fun p' => Node.node .ROOT [p']
+    | [] => some (Node.node .ROOT [])
+  | "e" => match paragraphs root with
+    | p :: _ => match entries p with
+      | e :: _ => (entryWrap cfg f e).map fun e' => Node.node .ROOT [Node.node .PARAGRAPH [e']]
+      | [] => some (Node.node .ROOT [])
+    | [] => some (Node.node .ROOT [])
+  | _ => none
+
+def showWrapped (r : Option DNode) : String :=
+  match r with
+  | none => "PANIC"
+  | some t => s!"{encStr t.text} {encDoc (docItems t)} {dump t}"
+
 def handle (op : String) (args : List String) : Option String :=
   match op, args with
+  | "deb.wrap", [level, t, cfg] => do
+    let s ← decStr t
+    let (c, ecmp, pcmp, fmt) ← decCfg cfg
+    let root := (parse s).tree
+    pure (match wrapOnce level c ecmp pcmp fmt root with
+      | none => "PANIC"
+      | some t1 => match wrapOnce level c ecmp pcmp fmt t1 with
+        | none => "PANIC"
+        | some t2 => s!"{showWrapped (some t1)} 2:{encStr t2.text}")
   | "deb.hist", [start, ops] => do
     let d ← startDoc start
     let (outs, dEnd) ← histRun d (if ops.isEmpty then [] else ops.splitOn ",")
